@@ -473,7 +473,48 @@ def rule_r10(ctx, rid="C12.R10"):
         ctx.r.violation(rid, k, "%s acquires %s, which is not re-entrant, while the same thread may hold it (%s): the thread blocks on itself for ever" % (f.qual, lid, how), f.loc(st))
 
 
-RULES = [rule_r1, rule_r2, rule_r3, rule_r4, rule_r5, rule_r6, rule_r7, rule_r8, rule_r9, rule_r10]
+def rule_r11(ctx):
+    """Shared with C17.R1: when an output buffer overflows to a file the whole backlog is copied (from offset 0) - the bound on buffered output is kept by moving it to disk, not by losing bytes or counting bytes that are gone."""
+    from . import c17
+    c17.rule_r1(ctx, rid="C12.R11")
+
+
+def rule_r12(ctx, rid="C12.R12"):
+    ctx.r.rule(rid, "a producer pauses holding nothing the I/O thread needs: along every worker call chain to a wait() on the output condition, the locks held besides the condition's own are locks the I/O thread never takes (while the worker sleeps with such a lock, the I/O thread blocks on it in received() and never reaches the flush that would notify)")
+    from ..locks import get_locks, thread_roles
+    p = ctx.p
+    lk = get_locks(p)
+    roles = thread_roles(p)
+    io, wk = roles["IO"], roles["WORKER"]
+    io_locks = set()
+    for key in io.states:
+        io_locks |= set(key[3])
+        f0 = p.functions.get(key[0])
+        if f0 is not None:
+            for hs in lk.lexical(f0).values():
+                io_locks |= set(hs)
+    n = 0
+    seen = set()
+    for (f, g, nd, c) in _cond_calls(ctx, "wait"):
+        own = lk.table.resolve(f, c.func.value, lk.cg)
+        st = lk.stmt_of_node(f, nd)
+        lex = lk.held_lex(f, st) if st is not None else frozenset()
+        for key in wk.reaches(f.qual):
+            if nd.id not in wk.live_nodes[key]:
+                continue
+            n += 1
+            foreign = (set(key[3]) | set(lex)) - {own}
+            clash = sorted(foreign & io_locks)
+            if clash and (f.qual, tuple(clash)) not in seen:
+                seen.add((f.qual, tuple(clash)))
+                ctx.r.violation(rid, key_of(f, None, "waits-holding::" + ",".join(clash)), "a worker can wait on %s while holding %s, which the I/O thread also takes: the I/O thread blocks there, never flushes, never notifies - producer and loop deadlock although the client is reading" % (own, ", ".join(clash)),
+                                f.loc(nd.ast), {"call_chain": wk.chain(key)})
+    ctx.r.floor(rid, n, 2, "worker call chains reaching a wait on the output condition")
+    if not seen:
+        ctx.r.ok(rid, "%d worker chains wait holding only locks the I/O thread never takes (I/O-side locks: %s)" % (n, ", ".join(sorted(io_locks))), "src/waitress/channel.py")
+
+
+RULES = [rule_r1, rule_r2, rule_r3, rule_r4, rule_r5, rule_r6, rule_r7, rule_r8, rule_r9, rule_r10, rule_r11, rule_r12]
 
 from ..selftest import M, T, V  # noqa: E402
 
